@@ -125,8 +125,16 @@ def gvec(rng, n, gen=rat):
 def gmat(rng, n, gen=rat):
     k = rng.random()
     size = n * n
-    if k < 0.7:
+    if k < 0.62:
         return [gen(rng) for _ in range(size)]
+    if k < 0.7:
+        # well-conditioned but tiny (or huge) determinant: every entry of a
+        # small-integer matrix scaled by the same factor
+        f = Fraction(1, rng.choice([50, 200, 1000])) if rng.random() < 0.7 \
+            else Fraction(rng.choice([300, 5000]))
+        if gen is dyadic:
+            f = Fraction(1, rng.choice([64, 256, 1024]))
+        return [Fraction(rng.randint(-9, 9)) * f for _ in range(size)]
     if k < 0.78:                                # sparse
         return [gen(rng) if rng.random() < 0.3 else Fraction(0)
                 for _ in range(size)]
